@@ -209,8 +209,8 @@ class _Scn(object):
 
 
 SCENARIOS = [
-    _Scn('c06.swap', ('randmio_und_signed', 'randmio_dir_signed'), {'quick': 8000, 'thorough': 800000}),
-    _Scn('c06.null', ('null_model_und_sign', 'null_model_dir_sign'), {'quick': 8000, 'thorough': 800000}),
+    _Scn('c06.swap', ('randmio_und_signed', 'randmio_dir_signed'), {'quick': 12000, 'thorough': 800000}),
+    _Scn('c06.null', ('null_model_und_sign', 'null_model_dir_sign'), {'quick': 12000, 'thorough': 800000}),
 ]
 RULE = ('one run = one call of a signed null-model routine on a generated signed network (n 4..10, >=1 positive and >=1 negative connection, '
         'symmetric for _und; itr/bin_swaps in {0,1,2,5}, wei_freq in {0,.1,.3,.5,1}) with the four-node picks and the weight-dealing '
